@@ -4,7 +4,7 @@
        same list of facet functions for every slot.
    Only statements.  Polynomials: the real lbasis run on symbolic coordinates (Gen.C09_E_<refdom>, Gen.C03_T_<refdom>);
    orientation expressions, sort flags, refdom tables, Piola einsum: Gen.C03_Gen; ties: Dyn.C03Tie. *)
-From Coq Require Import List Arith ZArith QArith Bool Ring_theory Setoid Sorted Permutation.
+From Coq Require Import List Arith ZArith QArith Bool Ring_theory Setoid Sorted Permutation Lia.
 Import ListNotations.
 Require Import Base.C09_Poly Base.C09_PolyQ Model.C09_Elem Proofs.C09_ElemProofs.
 Require Import Model.C03_Trace Model.C03_Orient Proofs.C03_TraceProofs Proofs.C03_OrientProofs.
@@ -121,6 +121,30 @@ Proof.
   apply sorted_lt_perm_eq; assumption.
 Qed.
 Print Assumptions C03_tri_shared_facet_same_direction.
+
+(* on a sorted triangle mesh every H(curl) orientation sign is +1: the local facet [i,j] of a sorted cell has
+   t[i] < t[j] (theorem above), and the regenerated expression gives +1 for a < b *)
+Theorem C03_sorted_cells_orientation_plus :
+  forall col f a b, NoDup col -> length col = gen_RefTri_nnodes -> In f gen_RefTri_facets ->
+    entity_vertices (gen_post_init_column gen_sort_t_MeshTri1 col) f = [a; b] ->
+    gen_hcurl_ori (Z.of_nat a) (Z.of_nat b) = 1%Z.
+Proof.
+  intros col f a b Hnd Hl Hf He. apply tie_sorted_ori_plus.
+  destruct (C03_sorted_cell_facets_ascending col f Hnd Hl Hf) as [_ Hs]. rewrite He in Hs.
+  inversion Hs as [|? ? _ Hall]; subst. inversion Hall; subst. lia.
+Qed.
+Print Assumptions C03_sorted_cells_orientation_plus.
+
+(* ElementTriN3 has its own gbasis that re-labels and negates the edge functions depending on the orientation sign.
+   effective_bases lists (regenerated element, table, effective element): the table [(sign_i, idx_i)] is MEASURED on the
+   real gbasis for every local index (stub mapping with identity Jacobian, orientation +1, tagged lbasis: exhaustive,
+   15 indices) and eff_matches checks that the effective element's polynomials are sign_i * lbasis(idx_i), value and
+   curl.  The effective element for orientation +1 (= every sorted triangle mesh, theorem above) is a member of
+   traced_elements and vector_uniform_elements: its tangential traces obey the trace lemma with slot-independent
+   signs, exactly like ElementTriN2, hence the three edge functions are single valued across every interior facet. *)
+Theorem C03_effective_bases_as_measured : forall x, In x effective_bases -> eff_matches x = true.
+Proof. exact (proj1 (Forall_forall _ _) effective_bases_ok). Qed.
+Print Assumptions C03_effective_bases_as_measured.
 
 (* H(curl): the generated orientation sign turns every local edge (a, b) into the pair (min, max): the oriented
    tangential DOF refers to the direction "smaller to larger global vertex" from EVERY cell, 2-D facets and 3-D
